@@ -46,6 +46,7 @@ class ScaleSpec(SeqSpec):
                 add({"kind": "do", "n": n, "p": p})
             for n, p in [(6, 2), (50, 3), (300, 4)]:
                 add({"kind": "do-overlap", "n": n, "p": p})
+            add({"kind": "do-empty"})
         if "chans-merge" in self.kinds:
             for n in [255, 256, 257, 300] + ([600] if big else []):
                 add({"kind": "chans-merge", "n": n, "per": 2})
